@@ -143,6 +143,8 @@ Inductive dop :=
 | DNewEpoch (collector_ok : bool) (fee : Z)
 | DClaim (who : Z) (first_bonded : option Z) (shares : list (Z * share))
 | DSetGrace (admin : bool) (g : Z)
+| DNewEpochF (collector_ok : bool) (fee : Z) (x : Z)   (* NewEpoch with x > 0 of the distribution asset attached to the message:
+                                       the coins reach the distributor with the call and belong to no epoch *)
 | DStray (x : Z).                   (* a plain bank transfer of x > 0 of the distribution asset to the distributor's address by
                                        anybody: no contract code runs, the amount belongs to no epoch *)
 
@@ -151,7 +153,8 @@ Inductive deffect :=
 | FNew (id : Z) (fee : Z)
 | FPaid (who : Z) (ids : list Z) (amount : Z)
 | FGrace (g : Z)
-| FStray (x : Z).
+| FStray (x : Z)
+| FNewF (id : Z) (fee : Z) (x : Z).
 
 Definition dstep (c : dcfg) (now : Z) (s : dstate) (o : dop) : outcome (dstate * deffect) :=
   match o with
@@ -160,6 +163,10 @@ Definition dstep (c : dcfg) (now : Z) (s : dstate) (o : dop) : outcome (dstate *
       do r <- claim s who fb shares;
       Ok (fst r, FPaid who (map de_id (claimable s who fb)) (snd r))
   | DSetGrace admin g => do s' <- set_grace s admin g; Ok (s', FGrace g)
+  | DNewEpochF ok fee x =>
+      do _ <- ensure (0 <? x) E_OTHER;                              (* bank: an empty amount cannot be attached *)
+      do s' <- new_epoch c now s ok fee;
+      Ok (mkD (d_epochs s') (d_cursor s') (d_grace s') (d_bal s' + x), FNewF (e_id (cur_epoch s')) fee x)
   | DStray x =>
       do _ <- ensure (0 <? x) E_OTHER;                              (* bank: an empty amount cannot be sent *)
       Ok (mkD (d_epochs s) (d_cursor s) (d_grace s) (d_bal s + x), FStray x)
@@ -179,7 +186,7 @@ Fixpoint dseffects (c : dcfg) (s : dstate) (h : list dsevent) : list deffect :=
   end.
 
 (* what plain transfers added to the balance over the accepted steps *)
-Definition stray_of (f : deffect) : Z := match f with FStray x => x | _ => 0 end.
+Definition stray_of (f : deffect) : Z := match f with FStray x => x | FNewF _ _ x => x | _ => 0 end.
 Definition strays (fs : list deffect) : Z := sumZ (map stray_of fs).
 
 Definition sum_avail (l : list depoch) : Z := sumZ (map (fun e => oz (de_avail e)) l).
